@@ -515,7 +515,6 @@ where
 
         let a_base2k: usize = a.base2k().into();
         let key_base2k: usize = tsk.base2k().into();
-        let res_base2k: usize = res.base2k().into();
 
         let cols: usize = tsk.rank_out().as_usize() + 1;
         let pairs: usize = tsk.rank_in().as_usize();
@@ -531,7 +530,7 @@ where
         };
         let lvl_1_res_dft: usize = self.bytes_of_vec_znx_dft(cols, tsk.size());
         let lvl_1_gglwe_product: usize = self.gglwe_product_dft_tmp_bytes(res.size(), a_dft_size, tsk);
-        let lvl_1_post_conv: usize = if res_base2k != key_base2k {
+        let lvl_1_post_conv: usize = if a_base2k != key_base2k {
             VecZnx::bytes_of(self.n(), 1, a_dft_size) + self.vec_znx_normalize_tmp_bytes()
         } else {
             0
@@ -594,7 +593,7 @@ where
         self.gglwe_product_dft(&mut res_dft, &a_dft, &tsk.0, scratch_2);
         let mut res_big: VecZnxBig<&mut [u8], BE> = self.vec_znx_idft_apply_consume(res_dft);
 
-        if res_base2k == key_base2k {
+        if a_base2k == key_base2k {
             for i in 0..cols {
                 self.vec_znx_big_add_small_assign(&mut res_big, i, a.data(), i);
             }
